@@ -67,9 +67,9 @@ def gen_params(prop, quick):
         return L.params(maxc=3 if quick else 5, minc=2, maxv=5 if quick else 8, len=26 if quick else 60,
                         cbounds=[0, 1, 2, 4, 7, 10, 10], vbounds=[-1, -1, 1, 3, 5], pens=[0, 1, 1, 2],
                         ws=[1, 2, 2, 4], lims=[-1, -1, -1, 2], caps=[2, 3], pols=[0, 1, 1, 1, 1])
-    return L.params(maxc=3 if quick else 4, minc=2, maxv=6 if quick else 9, len=24 if quick else 60,
-                    cbounds=[1, 4, 10], vbounds=[-1, 3], pens=[0, 1, 1, 2], ws=[1, 2, 2, 2, 4],
-                    lims=[1, 1, 2, 2, 3, 4, -1], caps=[2, 3], pols=[0, 1, 1, 1, 1])
+    return L.params(maxc=3 if quick else 4, minc=2, maxv=7 if quick else 10, len=26 if quick else 60,
+                    cbounds=[1, 4, 10], vbounds=[-1, 3], pens=[0, 1, 1, 1, 2], ws=[1, 2, 2, 2, 4],
+                    lims=[1, 1, 1, 2, 2, 3, 4, -1], caps=[2, 3], pols=[0, 1, 1, 1, 1])
 
 
 def ext_params(prop, par):
@@ -159,7 +159,7 @@ def report(ctx, prop, hists, recs, aborts, fails, origin_of):
 # ------------------------------------------------------------------------------------------- M
 def model_check(ctx, prop, bases, quick):
     """TLC explores Lmm.tla itself (histories merged): reference invariants; for C17 also the bookkeeping mirror."""
-    par = L.params(maxc=3, minc=2, maxv=4, len=3 if quick else 5, cbounds=[0, 2, 6], vbounds=[-1, 1], pens=[0, 1, 2],
+    par = L.params(maxc=3, minc=2, maxv=4, len=4 if quick else 6, cbounds=[0, 2, 6], vbounds=[-1, 1], pens=[0, 1, 2],
                    ws=[1, 2], lims=[-1, 1], caps=[2], bases=[L.strip(b) for b in bases])
     pf = os.path.join(ctx.scratch, "mc_params.json")
     json.dump(par, open(pf, "w"))
@@ -230,7 +230,9 @@ def run(ctx, prop):
     quick = ctx.quick
     par = gen_params(prop, quick)
     _, seam = L.driver()
-    n_rand = {"C15": 300, "C16": 300, "C17": 260, "C18": 300}[prop] if quick else 6000
+    # VERIF_LMM_SCALE (default 1) scales the number of random histories: only meant for experiments on a loaded machine
+    scale = float(os.environ.get("VERIF_LMM_SCALE", "1"))
+    n_rand = max(12, int(({"C15": 300, "C16": 300, "C17": 260, "C18": 300}[prop] if quick else 3000) * scale))
     t0 = time.time()
     # ---- G: histories from the specification
     reg_names = sorted(L.REGRESSION)
